@@ -825,6 +825,26 @@ def check_doc(rec, gen, cfg, max_times=12):
   for key, msg in sorted(probs.items()):
     fail(key, C_SNAP, msg)
 
+  # -- the same filter OBJECT used again: on the same document (idempotence) and on a second copy of the document
+  # (a filter that keeps state between process() calls would give a result that depends on what it processed before)
+  doc3, doc4 = gen_doc(gen), gen_doc(gen)
+  try:
+    flt = LCDDocFilter(make_config(cfg))
+    flt.process(doc3)
+    flt.process(doc3)
+    flt.process(doc4)
+    e3 = None
+  except Exception as e:  # pylint: disable=broad-except
+    e3 = e
+  rec.evaluated("a filter object can be used for several documents", case)
+  if e3 is not None:
+    fail("filter-object-reuse:raises:" + type(e3).__name__, "a filter object can be used for several documents",
+         f"re-using one LCDDocFilter object raised {e3!r}")
+  elif fp_doc(doc3) != fp_doc(doc1) or fp_doc(doc4) != fp_doc(doc1):
+    fail("filter-object-reuse:result-differs", "a filter object can be used for several documents",
+         "processing a document with a filter object that has processed documents before gives a different result: "
+         f"{fp_diff(fp_doc(doc1), fp_doc(doc3)) or fp_diff(fp_doc(doc1), fp_doc(doc4))}")
+
   # -- idempotence
   doc2 = gen_doc(gen)
   e1 = run_filter(doc2, cfg)
